@@ -141,6 +141,20 @@ def targeted_calls(ctx):
     add('reflect', lambda: LR.reflect(rt, torch.tensor([[0.1, 0.1, 1.], [0, 0, 1.]])))
     add('refract', lambda: LR.refract(rt, torch.tensor([[0.1, 0.1, 1.], [0, 0, 1.]]), 1.0, 1.5))
     add('create_ray_from_all_pairs', lambda: LR.create_ray_from_all_pairs(torch.rand(2, 3), torch.rand(3, 3) + 2))
+    # single-element batches: `expand` / `repeat` / `reshape` of a one-row tensor are no-ops that return the caller's storage, so an in-place
+    # step that is harmless for m > 1 writes into the argument for m = 1 (and a start at the origin would hide a subtraction)
+    one_start, ends = torch.tensor([[0.3, -0.2, 0.1]]), torch.rand(5, 3) + 2
+    add('create_ray_from_all_pairs/one_start', lambda: LR.create_ray_from_all_pairs(one_start, ends))
+    add('create_ray_from_all_pairs/1d', lambda: LR.create_ray_from_all_pairs(one_start[0], ends[0]))
+    add('create_ray_from_all_pairs/one_end', lambda: LR.create_ray_from_all_pairs(ends, one_start))
+    add('create_ray_from_two_points/one', lambda: LR.create_ray_from_two_points(one_start, ends[:1]))
+    add('create_ray_from_two_points/1d', lambda: LR.create_ray_from_two_points(one_start[0], ends[0]))
+    add('create_ray/one', lambda: LR.create_ray(one_start, torch.tensor([[30., 60., 90.]])))
+    add('propagate_ray/one', lambda: LR.propagate_ray(rt, torch.tensor([2.0])))
+    add('torch.rotate_points/one', lambda: LT.rotate_points(one_start, angles=torch.tensor([[10., 20., 30.]]), origin=torch.tensor([[1., 0.5, 0.2]]),
+                                                            offset=ends[:1]))
+    add('intersect_w_surface/one', lambda: LR.intersect_w_surface(rt.unsqueeze(0), tt))
+    add('intersect_w_circle', lambda: LR.intersect_w_circle(rt, [tt, torch.tensor([[0.3, 0.3, 1.0]]), torch.tensor([5.0])]))
     add('luminous_point', lambda: LR.create_ray_from_point_w_luminous_angle(torch.tensor([0., 0, 0]), 5, torch.tensor([10., 0, 0]), 30.))
     add('luminous_grid', lambda: LR.create_ray_from_grid_w_luminous_angle(torch.tensor([0., 0, 0]), [1., 1.], [2, 2], torch.tensor([10., 0, 0]), 3, 30.))
     add('grid_sample', lambda: NT.grid_sample(no=[3, 3], size=[2., 2.], center=[1., 2., 3.], angles=[10., 0., 0.]))
